@@ -36,7 +36,7 @@ def run(tier, seed, replay_path):
     for e in edges:
         e["obs"] = [dict(o) if isinstance(o, dict) else o for o in e["obs"]]
     g = replay.Graph(edges, key_fields_drop=("equal", "others"))
-    stats, viol, _, _, samples = replay.cover_parallel(g, MolHeapAdapter, seed=seed, nproc=6 if tier == "quick" else 12, max_path=8,
+    stats, viol, _, _, samples = replay.cover_parallel(g, MolHeapAdapter, seed=seed, nproc=6 if tier == "quick" else (12 if g.nedges < 150000 else 6 if g.nedges < 400000 else 4), max_path=8,
                                                        budget_s=35 if tier == "quick" else 600)
     ev.count(evaluations=stats["steps"], distinct_nontrivial=stats["pairs_exercised"], traces=stats["paths"])
     ev.set(replay=stats)
